@@ -35,11 +35,20 @@ func (valdec sliceDecoder) Decode(dec *Decoder, p interface{}, tag byte) {
 	case TagEmpty:
 		setSliceHeader(reflect2.PtrOf(p), valdec.empty, 0)
 	case TagList:
-		count := dec.ReadInt()
+		count := dec.readCount()
 		slice := reflect2.PtrOf(p)
-		valdec.t.UnsafeGrow(slice, count)
+		// the slice grows as elements arrive: a declared count that cannot be
+		// checked against the input is not trusted with one large allocation
+		n := prealloc(count)
+		valdec.t.UnsafeGrow(slice, n)
 		dec.AddReference(p)
-		for i := 0; i < count; i++ {
+		for i := 0; i < count && dec.Error == nil; i++ {
+			if i >= n {
+				if n *= 2; n > count {
+					n = count
+				}
+				valdec.t.UnsafeGrow(slice, n)
+			}
 			valdec.decodeElem(dec, valdec.et, valdec.t.UnsafeGetIndex(slice, i))
 		}
 		dec.Skip()
